@@ -49,6 +49,12 @@ def inventory(tree):
                         globs.append(n.id)
         elif isinstance(st, ast.AnnAssign) and isinstance(st.target, ast.Name):
             globs.append(st.target.id)
+    for cnode in [c for c in ast.walk(tree) if isinstance(c, ast.ClassDef)]:
+        for st in cnode.body:
+            if isinstance(st, ast.Assign):
+                for t in st.targets:
+                    if isinstance(t, ast.Name):
+                        globs.append(f"{cnode.name}.{t.id}")
     loops = {}
     for q, fn in _iter_funcs(tree):
         its = [ast.unparse(st.iter) + " ## " + _loop_fingerprint(st) for st in ast.walk(fn) if isinstance(st, ast.For) and _literal_iter(st) is not None]
@@ -73,6 +79,9 @@ def inventory(tree):
               and len(st.value.generators) == 1 and isinstance(st.value.generators[0].iter, (ast.Tuple, ast.List))]
         if cs:
             comps[q] = cs
+    dict_comps = sum(1 for n in ast.walk(tree) if isinstance(n, ast.DictComp) and len(n.generators) == 1 and (
+        isinstance(n.generators[0].iter, (ast.Tuple, ast.List)) or isinstance(n.generators[0].iter, ast.Call) and isinstance(n.generators[0].iter.func, ast.Attribute)
+        and isinstance(n.generators[0].iter.func.value, ast.Dict)))
     call_kw = {}
     for n in ast.walk(tree):
         if isinstance(n, ast.Call):
@@ -82,7 +91,7 @@ def inventory(tree):
                     if k.arg and k.arg not in call_kw.setdefault(nm, []):
                         call_kw[nm].append(k.arg)
     return {"functions": sorted(set(funcs)), "globals": sorted(set(globs)), "literal_loops": loops, "private_params": params,
-            "call_positional": call_pos, "call_keywords": {k: sorted(v) for k, v in call_kw.items()}, "literal_comps": comps}
+            "call_positional": call_pos, "call_keywords": {k: sorted(v) for k, v in call_kw.items()}, "literal_comps": comps, "dict_comps": dict_comps}
 
 
 def _callee_name(call):
@@ -211,6 +220,12 @@ def _is_literal(e):
     if isinstance(e, ast.Call) and isinstance(e.func, ast.Name) and e.func.id == "slice" and not e.keywords \
             and 1 <= len(e.args) <= 3 and all(_is_literal(a) for a in e.args):
         return True
+    # limits of the NumPy number types and arithmetic on constants: np.iinfo(np.uint8).max + 1
+    if isinstance(e, ast.Attribute) and e.attr in ("max", "min", "eps", "bits") and isinstance(e.value, ast.Call) and not e.value.keywords \
+            and isinstance(e.value.func, ast.Attribute) and e.value.func.attr in ("iinfo", "finfo") and len(e.value.args) == 1 and _is_literal(e.value.args[0]):
+        return True
+    if isinstance(e, ast.BinOp) and isinstance(e.op, (ast.Add, ast.Sub, ast.Mult, ast.Pow, ast.FloorDiv)):
+        return _is_literal(e.left) and _is_literal(e.right) and not (isinstance(e.left, (ast.Tuple, ast.List)) or isinstance(e.right, (ast.Tuple, ast.List)))
     return False
 
 
@@ -273,9 +288,33 @@ def propagate_new_constants(tree, ref_globals):
     all_counts = _scope_binding_counts(tree.body)
     declared_global = {nm_ for x in ast.walk(tree) if isinstance(x, ast.Global) for nm_ in x.names}
     consts = {k: v for k, v in consts.items() if counts.get(k) == 1 and all_counts.get(k) == 1 and k not in declared_global}
-    if not consts:
-        return 0
     n = 0
+    # class-level constants the reference does not have: `_TABLE = {..}` in a class body, read as Cls._TABLE / Outer.Cls._TABLE /
+    # self._TABLE / cls._TABLE (one binding in the class body, never assigned through an attribute anywhere in the module)
+    attr_stores = {x.attr for x in ast.walk(tree) if isinstance(x, ast.Attribute) and isinstance(x.ctx, (ast.Store, ast.Del))}
+    for cnode in [c for c in ast.walk(tree) if isinstance(c, ast.ClassDef)]:
+        counts_c = _scope_binding_counts(cnode.body)
+        cc = {st.targets[0].id: st.value for st in cnode.body if isinstance(st, ast.Assign) and len(st.targets) == 1
+              and isinstance(st.targets[0], ast.Name) and _is_literal(st.value) and st.targets[0].id.startswith("_")
+              and counts_c.get(st.targets[0].id) == 1 and st.targets[0].id not in attr_stores
+              and f"{cnode.name}.{st.targets[0].id}" not in ref_globals and st.targets[0].id not in ref_globals}
+        if not cc:
+            continue
+
+        class R(ast.NodeTransformer):
+            def visit_Attribute(self, a):
+                self.generic_visit(a)
+                if isinstance(a.ctx, ast.Load) and a.attr in cc:
+                    base = a.value
+                    owner = base.attr if isinstance(base, ast.Attribute) else base.id if isinstance(base, ast.Name) else None
+                    if owner in (cnode.name, "self", "cls"):
+                        nonlocal n
+                        n += 1
+                        return copy.deepcopy(cc[a.attr])
+                return a
+        R().visit(tree)
+    if not consts:
+        return n
     for q, fn in _iter_funcs(tree):
         shadow = _stores(fn.body) | {a.arg for a in fn.args.args + fn.args.kwonlyargs + fn.args.posonlyargs}
         use = {k: v for k, v in consts.items() if k not in shadow}
@@ -318,6 +357,42 @@ class _Getattr(ast.NodeTransformer):
         if isinstance(n.func, ast.Name) and n.func.id == "getattr" and len(n.args) == 2 and not n.keywords \
                 and isinstance(n.args[1], ast.Constant) and isinstance(n.args[1].value, str) and n.args[1].value.isidentifier():
             return ast.copy_location(ast.Attribute(value=n.args[0], attr=n.args[1].value, ctx=ast.Load()), n)
+        # f(*(a, b)) -> f(a, b);  f(**{"k": v}) -> f(k=v)      (literal collections only)
+        if any(isinstance(a, ast.Starred) and isinstance(a.value, (ast.Tuple, ast.List)) for a in n.args):
+            new_args = []
+            for a in n.args:
+                if isinstance(a, ast.Starred) and isinstance(a.value, (ast.Tuple, ast.List)) and not any(isinstance(x, ast.Starred) for x in a.value.elts):
+                    new_args.extend(a.value.elts)
+                else:
+                    new_args.append(a)
+            n.args = new_args
+        if any(k.arg is None and isinstance(k.value, ast.Dict) for k in n.keywords):
+            new_kw = []
+            for k in n.keywords:
+                if k.arg is None and isinstance(k.value, ast.Dict) and all(isinstance(x, ast.Constant) and isinstance(x.value, str) and x.value.isidentifier()
+                                                                          for x in k.value.keys):
+                    new_kw.extend(ast.keyword(arg=x.value, value=v) for x, v in zip(k.value.keys, k.value.values))
+                else:
+                    new_kw.append(k)
+            n.keywords = new_kw
+        # "lit{}lit".format(x, ..) with automatic fields only -> f"lit{x}lit"
+        if isinstance(n.func, ast.Attribute) and n.func.attr == "format" and isinstance(n.func.value, ast.Constant) and isinstance(n.func.value.value, str) \
+                and not n.keywords and not any(isinstance(a, ast.Starred) for a in n.args):
+            import string
+            try:
+                pieces = list(string.Formatter().parse(n.func.value.value))
+            except ValueError:
+                pieces = None
+            if pieces is not None and all(fld in (None, "") and not spec_ and conv is None for _, fld, spec_, conv in pieces) \
+                    and sum(1 for _, fld, _, _ in pieces if fld == "") == len(n.args):
+                vals, k = [], 0
+                for lit, fld, _, _ in pieces:
+                    if lit:
+                        vals.append(ast.Constant(lit))
+                    if fld == "":
+                        vals.append(ast.FormattedValue(value=n.args[k], conversion=-1, format_spec=None))
+                        k += 1
+                return ast.copy_location(ast.JoinedStr(values=vals), n)
         return n
 
 
@@ -418,9 +493,18 @@ def unroll_new_literal_loops(tree, ref_loops):
                         known.remove(txt)      # a loop the rules know: keep it as it is
                     elif subs is not None and _unrollable(st):
                         if True:
-                            for m in subs:
+                            # names that live inside one iteration only (bound in the body, not read or bound outside the loop) get a
+                            # name of their own per iteration: each copy is then a single assignment again
+                            inner = _stores(st.body)
+                            outside = {x.id for x in ast.walk(fn) if isinstance(x, ast.Name) and not any(x is y for y in ast.walk(st))}
+                            local = sorted(inner - outside)
+                            for k_it, m in enumerate(subs):
+                                ren = {nm_: f"{nm_}_{k_it}" for nm_ in local} if len(subs) > 1 else {}
                                 for b in st.body:
-                                    out.append(ast.copy_location(_subst(b, m), b))
+                                    nb = _subst(b, m)
+                                    if ren:
+                                        nb = _rename(nb, ren)
+                                    out.append(ast.copy_location(nb, b))
                             n += 1
                             continue
                 out.append(st)
@@ -1091,12 +1175,19 @@ def normalise(rel, tree, inv):
     if not inv:
         return {}
     done = {}
+    if not inv.get("dict_comps"):
+        _DictComp().visit(tree)      # comprehensions over literal tables become literals (so that a table built that way is a constant)
     done["private-params"] = recover_private_params(tree, inv.get("private_params", {}))
     done["constants"] = propagate_new_constants(tree, set(inv.get("globals", [])))
     done["helpers"] = inline_new_helpers(tree, set(inv.get("functions", [])))
     done["loops"] = unroll_new_literal_loops(tree, inv.get("literal_loops", {}))
     done["comprehensions"] = expand_new_literal_comprehensions(tree, inv.get("literal_comps", {}))
     from . import localnames
+    if not inv.get("dict_comps"):
+        _DictComp().visit(tree)      # the reference module has no dict comprehension over a literal table
+        _Getattr().visit(tree)
+        done["dict-locals"] = scalarise_literal_dicts(tree)
+        _Getattr().visit(tree)
     done["keywords"] = positionalise_new_keywords(tree, inv.get("call_positional", {}), localnames.table().get("__signatures__", {}),
                                                   inv.get("call_keywords", {}))
     _Getattr().visit(tree)
@@ -1153,12 +1244,104 @@ def expand_new_literal_comprehensions(tree, known):
     return n
 
 
+def scalarise_literal_dicts(tree):
+    """a local bound once to a dict literal with identifier keys and used only as `**d` or `d["key"]` is replaced by one local per
+    key (assigned where the dict was built, in the same order): `fields = {"a": x, "b": y}; f(**fields)` ->
+    `a = x; b = y; f(a=a, b=b)` (with fresh names when `a` is taken).  Evaluation order and position are unchanged."""
+    n_done = 0
+    for q, fn in _iter_funcs(tree):
+        own = [x for x in ast.walk(fn)]
+        taken = {x.id for x in own if isinstance(x, ast.Name)} | {a.arg for a in fn.args.posonlyargs + fn.args.args + fn.args.kwonlyargs}
+        stores = {}
+        for x in own:
+            if isinstance(x, ast.Name) and isinstance(x.ctx, (ast.Store, ast.Del)):
+                stores[x.id] = stores.get(x.id, 0) + 1
+        for st in [x for x in own if isinstance(x, ast.Assign) and len(x.targets) == 1 and isinstance(x.targets[0], ast.Name)
+                   and isinstance(x.value, ast.Dict) and x.value.keys and all(isinstance(k, ast.Constant) and isinstance(k.value, str) and k.value.isidentifier()
+                                                                               for k in x.value.keys)]:
+            d = st.targets[0].id
+            if stores.get(d) != 1 or len({k.value for k in st.value.keys}) != len(st.value.keys):
+                continue
+            uses = [x for x in own if isinstance(x, ast.Name) and x.id == d and isinstance(x.ctx, ast.Load)]
+            star_uses = [k for c in own if isinstance(c, ast.Call) for k in c.keywords if k.arg is None and k.value in uses]
+            sub_uses = [x for x in own if isinstance(x, ast.Subscript) and x.value in uses and isinstance(x.slice, ast.Constant)
+                        and isinstance(x.ctx, ast.Load) and x.slice.value in {k.value for k in st.value.keys}]
+            if len(star_uses) + len(sub_uses) != len(uses) or not uses:
+                continue
+            names = {}
+            for k in st.value.keys:
+                nm = k.value if k.value not in taken else f"_{d}_{k.value}"
+                names[k.value] = nm
+                taken.add(nm)
+            new_assigns = [ast.copy_location(ast.Assign(targets=[ast.Name(id=names[k.value], ctx=ast.Store())], value=v), st)
+                           for k, v in zip(st.value.keys, st.value.values)]
+            # replace the statement and the uses
+            for parent in ast.walk(fn):
+                for fld in ("body", "orelse", "finalbody"):
+                    blk = getattr(parent, fld, None)
+                    if isinstance(blk, list) and st in blk:
+                        i = blk.index(st)
+                        blk[i:i + 1] = new_assigns
+            for c in own:
+                if isinstance(c, ast.Call) and any(k in star_uses for k in c.keywords):
+                    kws = []
+                    for k in c.keywords:
+                        if k in star_uses:
+                            kws.extend(ast.keyword(arg=key, value=ast.Name(id=nm, ctx=ast.Load())) for key, nm in names.items())
+                        else:
+                            kws.append(k)
+                    c.keywords = kws
+
+            class R(ast.NodeTransformer):
+                def visit_Subscript(self, x):
+                    self.generic_visit(x)
+                    if x in sub_uses:
+                        return ast.copy_location(ast.Name(id=names[x.slice.value], ctx=ast.Load()), x)
+                    return x
+            R().visit(fn)
+            n_done += 1
+    if n_done:
+        ast.fix_missing_locations(tree)
+    return n_done
+
+
+class _DictComp(ast.NodeTransformer):
+    """{k: v for a, b in <literal pairs / literal dict>.items()} -> the dict literal (no condition, literal table)"""
+
+    def visit_DictComp(self, n):
+        self.generic_visit(n)
+        if len(n.generators) != 1 or n.generators[0].ifs or n.generators[0].is_async:
+            return n
+        g = n.generators[0]
+        fake = ast.For(target=g.target, iter=g.iter, body=[ast.Pass()], orelse=[])
+        subs = _literal_iter(fake)
+        if subs is None:
+            return n
+        return ast.copy_location(ast.Dict(keys=[_subst(n.key, m) for m in subs], values=[_subst(n.value, m) for m in subs]), n)
+
+    def visit_Call(self, n):
+        """tuple(f(x) for x in (a, b, c)) / list(..) over a literal table, no condition -> (f(a), f(b), f(c))"""
+        self.generic_visit(n)
+        if isinstance(n.func, ast.Name) and n.func.id in ("tuple", "list") and len(n.args) == 1 and not n.keywords \
+                and isinstance(n.args[0], (ast.GeneratorExp, ast.ListComp)) and len(n.args[0].generators) == 1 \
+                and not n.args[0].generators[0].ifs and not n.args[0].generators[0].is_async:
+            g = n.args[0].generators[0]
+            subs = _literal_iter(ast.For(target=g.target, iter=g.iter, body=[ast.Pass()], orelse=[]))
+            if subs is not None and isinstance(g.iter, (ast.Tuple, ast.List)):
+                elts = [_subst(n.args[0].elt, m) for m in subs]
+                cls = ast.Tuple if n.func.id == "tuple" else ast.List
+                return ast.copy_location(cls(elts=elts, ctx=ast.Load()), n)
+        return n
+
+
 def finish(tree, inv=None):
     """spelling normalisations that may become applicable after temporaries were inlined (a table bound to a name first and
     looped over afterwards is a literal loop once the name is gone)"""
     if inv:
         unroll_new_literal_loops(tree, inv.get("literal_loops", {}))
         expand_new_literal_comprehensions(tree, inv.get("literal_comps", {}))
+        if not inv.get("dict_comps"):
+            _DictComp().visit(tree)
     _Getattr().visit(tree)
     _Aug().visit(tree)
     ast.fix_missing_locations(tree)
